@@ -67,7 +67,7 @@ def main():
     for n in names:
         p = os.path.join(casedir, n)
         with builtins.open(p, "rb") as f:
-            text = f.read().decode("utf-8")
+            text = f.read().decode("utf-8-sig")  # the content as CPython decodes a source file: a UTF-8 byte order mark is not part of it
         del opened[:]
         fsig = sig(XonshParser.parse_file, pathlib.Path(p))
         seen = list(opened)
